@@ -215,7 +215,12 @@ pub fn build(spec: &Spec) -> (Vec<u8>, Vec<Gt>, Vec<u32>) {
         root.extend(builder::lfn_run(&units, b"NOSUCH~1   "));
     }
     add_sfn(&mut root, &mut gt, "/", b"AFTERORPBIN", 0x20, 0, tn(8), 0, 0, vec![], None);
-    // 8: a volume label in the middle of the root
+    // 8: a removed old label (deleted slot with the volume-id attribute), then the live label in the middle of the root
+    {
+        let mut old = builder::sfn_slot(b"OLDLABEL   ", 0x08, 0, tn(9), 0, 0);
+        old[0] = 0xE5;
+        root.push(old);
+    }
     root.push(builder::sfn_slot(b"VOL LABEL  ", 0x08, 0, tn(9), 0, 0));
     // 9: attribute bits
     for (i, (sfn, attr)) in [(b"RDONLY  A  ", 0x01u8), (b"HIDDEN  A  ", 0x02), (b"SYSTEM  A  ", 0x04), (b"ARCHIVE A  ", 0x20), (b"ALLBITS A  ", 0x27), (b"NOBITS  A  ", 0x00)].iter().enumerate() {
